@@ -282,6 +282,25 @@ def run(ctx):
     ctx.ob('C28-WRAP._attr_changed_-adds-the-write-bit-for-an-object-that-is-modified-already', ac, wb[0].ast if wb else ac.node, okm,
            '' if okm else 'for an object whose status is already \'modified\' _attr_changed_ can return without adding the attribute\'s write bit: an in-place change of a Json / array '
            'value made after another attribute was assigned is left out of the UPDATE')
+    # ---------------------------------------------------------------- STORE
+    # whatever Entity._db_set_ stores as the Python-side value of a non-relation attribute came out of the converter's dbval2val(.., obj) -- on a
+    # load and on unpickling alike.  A value stored as it arrived (tracked containers pickle as plain dict / list) is not tracked: in-place
+    # changes of it never reach _attr_changed_.
+    from ..q import reaching_defs as _rdf, value_of_def as _vof
+    ds_ = repo.fn('pony.orm.core', 'Entity._db_set_'); gd_ = cg.cfg(ds_)
+    uses = [x for x in gd_.nodes if x.kind == 'iter' and any(isinstance(n_, ast.Name) and n_.id == 'new_vals' for n_ in ast.walk(x.ast.iter))]
+    uses += [x for x in gd_.nodes if x.kind == 'stmt' and x.ast is not None and any(isinstance(c.func, ast.Attribute) and c.func.attr == 'update' and c.args and dotted(c.args[0]) == 'new_vals' for c in x.calls())]
+    ctx.need(uses, 'C28-STORE: the places where Entity._db_set_ consumes new_vals were not found')
+    nst = 0
+    for u in uses:
+        for d in _rdf(gd_, u, 'new_vals'):
+            v = _vof(d, 'new_vals')
+            nst += 1
+            ok = v is not None and any(isinstance(c, ast.Call) and isinstance(c.func, ast.Attribute) and c.func.attr == 'dbval2val' and len(c.args) >= 2 for c in ast.walk(v))
+            ctx.ob('C28-STORE.values-stored-by-_db_set_-come-out-of-the-converter', ds_, d.ast, ok,
+                   '' if ok else '`%s`: values reach obj._vals_ as they arrived, without dbval2val(.., obj): an unpickled Json / array value is a plain dict / list, in-place changes of it '
+                   'are not tracked and are lost at commit' % norm(d.ast)[:70], node=d.ast).key += '::%d' % nst
+    ctx.floor('C28-STORE', nst, 2, 'definitions of the values _db_set_ stores')
     # ---------------------------------------------------------------- OWNER
     # a value that is already tracked may be handed back unchanged only if it is tracked for *this* object and attribute:
     # all instances of an entity share the attribute object, so an attr-only test keeps the value bound to another owner
@@ -455,6 +474,7 @@ MUTANTS = [
     dict(id='C28-oa1', file='pony/orm/core.py', fn='Attribute.db_set', old="attr.converters[0].dbval2val(new_dbval, obj)", new="attr.converters[0].dbval2val(new_dbval)", expect='C28-OWNERARG'),
     dict(id='C28-kw1', file='pony/orm/ormtypes.py', fn='tracked_method', old="            if kwargs: kwargs =", new="            if kwargs and not args: kwargs =", expect='C28-WRAP.wrapper-adopts'),
     dict(id='C28-kw2', file='pony/orm/ormtypes.py', fn='tracked_method', old="            if kwargs: kwargs = {key: TrackedValue.make(obj, attr, value) for key, value in kwargs.items()}", new="            kwargs = {key: TrackedValue.make(obj, attr, value) for key, value in kwargs.items()}", benign=True),
+    dict(id='C28-store1', file='pony/orm/core.py', fn='Entity._db_set_', old="            new_vals = {attr: attr.converters[0].dbval2val(new_dbvals[attr], obj) if not attr.reverse else val\n                              for attr, val in avdict.items()}\n        else:", new="            new_vals = avdict\n        else:", expect='C28-STORE'),
     dict(id='C28-mod1', file='pony/orm/core.py', fn='Entity._attr_changed_', old="            obj._wbits_ |= bit\n            if status != 'modified':\n                assert status in ('loaded', 'inserted', 'updated')\n                assert obj._save_pos_ is None\n                obj._status_ = 'modified'\n",
          new="            if status != 'modified':\n                assert status in ('loaded', 'inserted', 'updated')\n                assert obj._save_pos_ is None\n                obj._status_ = 'modified'\n                obj._wbits_ = wbits | bit\n", expect='C28-WRAP._attr_changed_-adds'),
     dict(id='C28-q1', file='pony/orm/core.py', fn='Entity._attr_changed_', old="            if status != 'modified':\n                assert status in ('loaded', 'inserted', 'updated')\n", new="            if status in ('loaded', 'inserted'):\n", expect='C28-BITS.object-is-queued'),
